@@ -391,7 +391,184 @@ def _blocks(node: ast.AST) -> T.Iterator[list[ast.stmt]]:
                 yield h.body
 
 
-def canonicalise(tree: ast.Module) -> None:
+def _literal(e: ast.AST) -> bool:
+    """A literal whose every leaf is a constant, a name or an attribute chain (no calls): safe to copy to its use sites."""
+    if isinstance(e, ast.Constant):
+        return True
+    if isinstance(e, (ast.Tuple, ast.List, ast.Set)):
+        return all(_literal(x) or _attr_chain(x) or isinstance(x, ast.Name) for x in e.elts)
+    if isinstance(e, ast.Dict):
+        return all(k is not None and (_literal(k) or _attr_chain(k) or isinstance(k, ast.Name)) and (_literal(v) or _attr_chain(v) or isinstance(v, ast.Name)) for k, v in zip(e.keys, e.values))
+    return False
+
+
+def _module_constants(tree: ast.Module, known_globals: set[str] | None) -> None:
+    """A NEW private module-level constant bound once to a literal tuple / list / set / dict / constant is copied back to its use
+    sites (`_TLS_SCHEMES = (b"https", b"wss")` ... `scheme in _TLS_SCHEMES`  ->  `scheme in (b"https", b"wss")`)."""
+    if known_globals is None:
+        return
+    binds: dict[str, list[ast.stmt]] = {}
+    for st in tree.body:
+        tg = None
+        if isinstance(st, ast.Assign) and len(st.targets) == 1 and isinstance(st.targets[0], ast.Name):
+            tg = st.targets[0].id
+        elif isinstance(st, ast.AnnAssign) and isinstance(st.target, ast.Name) and st.value is not None:
+            tg = st.target.id
+        if tg is not None:
+            binds.setdefault(tg, []).append(st)
+    consts: dict[str, ast.AST] = {}
+    for name, sts in binds.items():
+        if name in known_globals or len(sts) != 1 or not (name.startswith("_") or name.isupper()):
+            continue
+        val = sts[0].value  # type: ignore[attr-defined]
+        if not _literal(val):
+            continue
+        # never rebound or mutated anywhere in the module
+        stores = [n for n in ast.walk(tree) if isinstance(n, ast.Name) and n.id == name and isinstance(n.ctx, (ast.Store, ast.Del))]
+        mutated = any(isinstance(n, ast.Attribute) and isinstance(n.value, ast.Name) and n.value.id == name and n.attr in
+                      ("append", "extend", "insert", "pop", "remove", "clear", "update", "setdefault", "add", "discard", "sort", "reverse", "popitem") for n in ast.walk(tree)) or \
+            any(isinstance(n, ast.Subscript) and isinstance(n.value, ast.Name) and n.value.id == name and isinstance(n.ctx, (ast.Store, ast.Del)) for n in ast.walk(tree)) or \
+            any(isinstance(n, (ast.Global, ast.Nonlocal)) and name in n.names for n in ast.walk(tree))
+        if len(stores) != 1 or mutated:
+            continue
+        consts[name] = val
+    if not consts:
+        return
+
+    class Sub(ast.NodeTransformer):
+        def visit_Name(self, n: ast.Name) -> ast.AST:
+            if isinstance(n.ctx, ast.Load) and n.id in consts:
+                new = _clone(consts[n.id])
+                for x in ast.walk(new):
+                    ast.copy_location(x, n)
+                return new
+            return n
+
+    for fn in [n for n in ast.walk(tree) if isinstance(n, FUNC_KINDS)]:
+        shadow = {a.arg for a in fn.args.args + fn.args.kwonlyargs} | {x.id for x in _own_nodes(fn) if isinstance(x, ast.Name) and isinstance(x.ctx, ast.Store)}
+        if shadow & set(consts):
+            continue
+        Sub().generic_visit(fn)
+
+
+def _flag_loops(block: list[ast.stmt]) -> None:
+    """`flag = False; while not flag: ...; flag = True`  ->  `while True: ...; break`   (the flag is written only in tail position of
+    the loop body and read only by the loop test).  Also `...; flag = <cond>` as the last statement -> `if <cond>: break`."""
+    i = 0
+    while i + 1 < len(block):
+        a, lp = block[i], block[i + 1]
+        if isinstance(a, ast.Assign) and len(a.targets) == 1 and isinstance(a.targets[0], ast.Name) and isinstance(a.value, ast.Constant) and a.value.value is False \
+                and isinstance(lp, ast.While) and not lp.orelse and isinstance(lp.test, ast.UnaryOp) and isinstance(lp.test.op, ast.Not) \
+                and isinstance(lp.test.operand, ast.Name) and lp.test.operand.id == a.targets[0].id:
+            flag = a.targets[0].id
+            ok = [True]
+
+            def tail(stmts: list[ast.stmt]) -> None:
+                """rewrite tail-position writes of the flag; any other occurrence makes the rewrite invalid"""
+                for j, st in enumerate(stmts):
+                    last = j == len(stmts) - 1
+                    if isinstance(st, ast.Assign) and len(st.targets) == 1 and isinstance(st.targets[0], ast.Name) and st.targets[0].id == flag:
+                        if not last:
+                            ok[0] = False
+                            return
+                        if isinstance(st.value, ast.Constant) and st.value.value is True:
+                            stmts[j] = ast.copy_location(ast.Break(), st)
+                        elif isinstance(st.value, ast.Constant) and st.value.value is False:
+                            stmts[j] = ast.copy_location(ast.Pass(), st)
+                        else:
+                            stmts[j] = ast.copy_location(ast.If(test=st.value, body=[ast.copy_location(ast.Break(), st)], orelse=[]), st)
+                    elif isinstance(st, ast.If) and last:
+                        tail(st.body)
+                        tail(st.orelse)
+                    elif isinstance(st, ast.Try) and last and not st.finalbody:
+                        # `try: ... except X: ... else: flag = True` - the request loop idiom
+                        for h in st.handlers:
+                            tail(h.body)
+                        tail(st.orelse if st.orelse else st.body)
+                        if st.orelse and any(isinstance(x, ast.Name) and x.id == flag for b in st.body for x in ast.walk(b)):
+                            ok[0] = False
+                    elif any(isinstance(x, ast.Name) and x.id == flag for x in ast.walk(st)):
+                        ok[0] = False
+                        return
+
+            body_copy = [_clone(x) for x in lp.body]
+            tail(body_copy)
+            used_after = any(isinstance(x, ast.Name) and x.id == flag for st in block[i + 2:] for x in ast.walk(st))
+            if ok[0] and not used_after:
+                lp.body = body_copy
+                lp.test = ast.copy_location(ast.Constant(value=True), lp.test)
+                ast.fix_missing_locations(lp)
+                del block[i]
+                continue
+        i += 1
+
+
+def _stmt_key(st: ast.stmt) -> str:
+    """Text of a statement for comparison; an annotated assignment compares equal to the plain one."""
+    if isinstance(st, ast.AnnAssign) and st.value is not None:
+        return _norm(ast.Assign(targets=[st.target], value=st.value, lineno=0, col_offset=0))
+    return _norm(st)
+
+
+def _return_in_loop_to_break(fn: T.Any) -> None:
+    """`while True: ...; if C: return X; ...` as the LAST statement of a function, with that single return and no break
+          ->  `while True: ...; if C: break; ...` followed by `return X`."""
+    if not fn.body or not isinstance(fn.body[-1], ast.While):
+        return
+    lp = fn.body[-1]
+    if not (isinstance(lp.test, ast.Constant) and lp.test.value is True) or lp.orelse:
+        return
+    inner = [x for st in lp.body for x in ast.walk(st)]
+    if any(isinstance(x, (ast.Break, ast.Yield, ast.YieldFrom)) for x in inner) or any(isinstance(x, (ast.While, ast.For, ast.AsyncFor, ast.Try, ast.With, ast.AsyncWith)) for x in inner):
+        return
+    rets = [x for x in inner if isinstance(x, ast.Return)]
+    if len(rets) != 1:
+        return
+    # the return must be the last statement of an `if` body that sits directly in the loop body
+    for i, st in enumerate(lp.body):
+        if isinstance(st, ast.If) and st.body and st.body[-1] is rets[0]:
+            st.body[-1] = ast.copy_location(ast.Break(), rets[0])
+            if st.orelse:
+                # `if C: break else: rest`  ->  `if C: break` + rest
+                rest, st.orelse = st.orelse, []
+                lp.body[i + 1:i + 1] = rest
+            fn.body.append(rets[0])
+            return
+
+
+def _rotate_priming(block: list[ast.stmt]) -> None:
+    """`S; while T: B...; S`  (the statements S before the loop are repeated as the last statements of its body)
+          ->  `while True: S; if not T: break; B...`"""
+    i = 0
+    while i < len(block):
+        lp = block[i]
+        if isinstance(lp, ast.While) and not lp.orelse and not (isinstance(lp.test, ast.Constant) and lp.test.value is True) and lp.body:
+            # longest k such that the k statements before the loop equal the last k statements of the body
+            k = 0
+            while k < min(i, len(lp.body)) and _stmt_key(block[i - 1 - k]) == _stmt_key(lp.body[len(lp.body) - 1 - k]) and not _is_exit(block[i - 1 - k]) \
+                    and not any(isinstance(x, (ast.Break, ast.Continue)) for x in ast.walk(lp.body[len(lp.body) - 1 - k])):
+                k += 1
+            no_jump = not any(isinstance(x, (ast.Continue,)) for st in lp.body for x in ast.walk(st))
+            if k >= 1 and no_jump:
+                S = block[i - k:i]
+                B = lp.body[:len(lp.body) - k]
+                neg = ast.copy_location(ast.UnaryOp(op=ast.Not(), operand=lp.test), lp.test)
+                pos = _negative(neg)
+                test = pos if pos is not None and False else neg
+                # fold `not (not X)` and `not (a <= b)` style negations where trivially possible
+                if isinstance(lp.test, ast.UnaryOp) and isinstance(lp.test.op, ast.Not):
+                    test = lp.test.operand
+                brk = ast.copy_location(ast.If(test=test, body=[ast.copy_location(ast.Break(), lp)], orelse=[]), lp)
+                lp.body = S + [brk] + B
+                lp.test = ast.copy_location(ast.Constant(value=True), lp.test)
+                ast.fix_missing_locations(lp)
+                del block[i - k:i]
+                i -= k
+        i += 1
+
+
+def canonicalise(tree: ast.Module, known_globals: set[str] | None = None) -> None:
+    _module_constants(tree, known_globals)
     _Small().visit(tree)
     for fn in [n for n in ast.walk(tree) if isinstance(n, FUNC_KINDS)]:
         fn.body = _guard_clauses(fn.body, True, False)
@@ -413,6 +590,9 @@ def canonicalise(tree: ast.Module) -> None:
         for b in list(_blocks(fn)):
             _accumulators(b)
             _split_tuple_assign(b)
+            _flag_loops(b)
+            _rotate_priming(b)
+        _return_in_loop_to_break(fn)
         _ifelse_temp_to_expr(fn)
         _collapse_generated_temps(fn)
     ast.fix_missing_locations(tree)
